@@ -97,3 +97,19 @@ Theorem C04_fragment_streams_agree : forall s,
 Proof. intros s. now rewrite (proj1 C04_limits_agree). Qed.
 
 Print Assumptions C04_fragment_streams_agree.
+
+(* the entity fragment of the tokenizer (coq/EntityFrag.v; each tokenizer is tied to the model instantiated with ITS OWN
+   marker table and size limit by tools/headfrag.py run_entities): the C table is the Python table plus the end-of-input
+   sentinel NUL, and the two instances give the same stream for EVERY string without U+0000 *)
+From MW Require EntityFrag EntityFragProofs.
+Theorem C04_entity_fragment_streams_agree : forall names s, ~ In 0%N s ->
+  EntityFrag.efrag_tokens py_markers names (N.to_nat c_max_entity_size) s =
+  EntityFrag.efrag_tokens c_markers names (N.to_nat c_max_entity_size) s.
+Proof.
+  intros names s H0. apply EntityFragProofs.efrag_tokens_ext. intros c Hc.
+  assert (Hne : c <> 0%N) by (intros ->; contradiction).
+  change c_markers with (0%N :: py_markers). unfold EntityFrag.is_marker. cbn [existsb].
+  destruct (N.eqb_spec c 0); [contradiction|reflexivity].
+Qed.
+
+Print Assumptions C04_entity_fragment_streams_agree.
